@@ -620,8 +620,10 @@ class GroupSpecificTerm:
     """
 
     def __init__(self, expr, factor):
-        self.expr = expr
-        self.factor = factor
+        # Every group-specific term owns its expression and its factor: '(0 + f|g + h)' builds
+        # 'f|g' and 'f|h' from one expression, and the encoding of 'f' is set per term
+        self.expr = deepcopy(expr)
+        self.factor = deepcopy(factor)
         self.data = None
         self.groups = None
         self.kind = None
